@@ -78,7 +78,7 @@ def run_shard(spec, tier, seed):
                 run_case(res, {'role': spec['role'], 'local': local, 'peer': peer, 'len': sizes_for(eff)[-1],
                                'seed': seed, 'kind': 'storage'})
                 if spec['role'] == 'requestor':
-                    for other in ('storage-full', 'reuse'):
+                    for other in ('storage-full', 'reuse', 'direct'):
                         run_case(res, {'role': 'requestor', 'local': local, 'peer': peer, 'len': sizes_for(eff)[0],
                                        'seed': seed, 'kind': other})
                 if spec['role'] == 'acceptor':
@@ -209,6 +209,18 @@ def _run(res, case, role, local, peer, n, kind, where, storage_dir):
                     ae.request_association({'aet': 'REMOTE', 'address': 'peer', 'port': 104}).__enter__()
                     del Stub.instances[:]
                     ae.max_pdu_length = local
+                elif kind == 'direct':
+                    # an application whose entity keeps one (large) maximum and gives individual
+                    # destinations their own: the association object is built with that value
+                    class PerDestination(applicationentity.ClientAE):
+                        import contextlib as _ctx
+
+                        @_ctx.contextmanager
+                        def request_association(self, remote_ae):
+                            assoc = asceprovider.AssociationRequester(self, remote_ae['max_pdu_length'], remote_ae)
+                            assoc.request()
+                            yield assoc
+                    ae = PerDestination('LOCAL', max_pdu_length=131072 if local != 131072 else 0)
                 else:
                     ae = applicationentity.ClientAE('LOCAL', max_pdu_length=local)
                 if kind != 'reuse':
@@ -216,7 +228,8 @@ def _run(res, case, role, local, peer, n, kind, where, storage_dir):
                 ac = P.AAssociateAcPDU.decode(R.build_pdu(F.assoc_ac_tree(max_len=peer)))
                 Stub.preload = [ac]
                 try:
-                    cm = ae.request_association({'aet': 'REMOTE', 'address': 'peer', 'port': 104})
+                    cm = ae.request_association({'aet': 'REMOTE', 'address': 'peer', 'port': 104,
+                                                 'max_pdu_length': local})
                     asce = cm.__enter__()
                 finally:
                     if kind == 'storage-full':
